@@ -167,3 +167,96 @@ def serialise(g, rng, base_name="Opc.Ua.NodeSet2.xml", placement=None, file_name
         d = dict(uris=local[1:] if (len(local) > 1 or rng.random() < 0.5) else None, models=models, aliases=alias_list if (alias_list or rng.random() < 0.5) else None, nodes=nodes)
         out.append((fname, d, local))
     return out
+
+# ---------------------------------------------------------------------------------------------- enumerations (C11, C16, C17)
+def add_enums(g, rng, n_types=None, n_vars=None, flavours=None, kinds=None):
+    """adds the Enumeration data type to the base namespace, enum types (EnumStrings / EnumValues / no definition) and enum-typed variables.
+       returns a description used by the oracles: dict(types={key: (flavour, mapping or None, name)}, vars={key: (type key, kind, value)})"""
+    from opcua_tools import ua_data_types as T
+    enum_root = (UA, "i", "29")
+    g.nodes[enum_root] = dict(cls="UADataType", bname=(UA, "Enumeration"), display="Enumeration", desc=None, attrs={}, value=None); g.order.append(enum_root)
+    g.refs.append(((UA, "i", "24"), enum_root, (UA, "i", "45")))
+    desc = dict(types={}, vars={})
+    uri = g.uris[0] if g.uris else UA
+    nt = rng.randint(0, 3) if n_types is None else n_types
+    for i in range(nt):
+        tk = (uri, "i", str(3000 + i))
+        flavour = flavours[i] if flavours else rng.choice(["strings", "values", "none"])
+        name = "Enum%d" % i
+        g.nodes[tk] = dict(cls="UADataType", bname=(uri, name), display=name, desc=None, attrs={}, value=None); g.order.append(tk)
+        g.refs.append((enum_root, tk, (UA, "i", "45")))
+        mapping = None
+        if flavour == "strings":
+            texts = [rng.choice(["Off", "On", "Auto", "a b", "é"]) + str(j) for j in range(rng.randint(1, 4))]
+            mapping = dict(enumerate(texts))
+            pk = (uri, "i", str(3100 + i))
+            val = T.UAListOf(tuple(T.UALocalizedText(t, "en") for t in texts), "LocalizedText")
+            g.nodes[pk] = dict(cls="UAVariable", bname=(UA, "EnumStrings"), display="EnumStrings", desc=None, attrs={"DataType": (UA, "i", "21"), "ValueRank": "1"}, value=val); g.order.append(pk)
+            g.refs.append((tk, pk, (UA, "i", "46")))
+        elif flavour == "values":
+            pairs = [(rng.choice([0, 1, 2, 5, 10, 100]) + 7 * j, rng.choice(["Low", "High", "Mid"]) + str(j)) for j in range(rng.randint(1, 3))]
+            mapping = dict(pairs)
+            pk = (uri, "i", str(3100 + i))
+            items = tuple(T.UAExtensionObject(type_nodeid=T.UANodeId(0, "i", "7616"),
+                          body=T.UAXMLElement('<EnumValueType xmlns="http://opcfoundation.org/UA/2008/02/Types.xsd"><Value>%d</Value><DisplayName><Text>%s</Text></DisplayName></EnumValueType>' % (v, t))) for v, t in pairs)
+            val = T.UAListOf(items, "ExtensionObject")
+            g.nodes[pk] = dict(cls="UAVariable", bname=(UA, "EnumValues"), display="EnumValues", desc=None, attrs={"DataType": (UA, "i", "24"), "ValueRank": "1"}, value=val); g.order.append(pk)
+            g.refs.append((tk, pk, (UA, "i", "46")))
+        desc["types"][tk] = (flavour, mapping, name)
+    tks = list(desc["types"])
+    nv = rng.randint(0, 4) if n_vars is None else n_vars
+    for i in range(nv):
+        if not tks: break
+        vk = (uri, "i", str(3200 + i)); tk = rng.choice(tks)
+        flavour, mapping, _ = desc["types"][tk]
+        kind = kinds[i] if kinds else rng.choice(["in", "in", "in", "out", "none", "list"])
+        inside = sorted(mapping) if mapping else [0, 1]
+        if kind == "in": x = rng.choice(inside); val = T.UAInt32(x)
+        elif kind == "out": x = max(inside) + 1000; val = T.UAInt32(x)
+        elif kind == "list": x = [rng.choice(inside), rng.choice(inside)]; val = T.UAListOf(tuple(T.UAInt32(y) for y in x), "Int32")
+        else: x = None; val = None
+        g.nodes[vk] = dict(cls="UAVariable", bname=(uri, "EnumVar%d" % i), display="EnumVar%d" % i, desc=None, attrs={"DataType": tk}, value=val); g.order.append(vk)
+        desc["vars"][vk] = (tk, kind, x)
+    return desc
+
+BUILTIN_IDS = {"Boolean": 1, "SByte": 2, "Byte": 3, "Int16": 4, "UInt16": 5, "Int32": 6, "UInt32": 7, "Int64": 8, "UInt64": 9, "Float": 10, "Double": 11, "String": 12,
+               "DateTime": 13, "Guid": 14, "ByteString": 15, "XmlElement": 16, "NodeId": 17, "ExpandedNodeId": 18, "StatusCode": 19, "QualifiedName": 20,
+               "LocalizedText": 21, "ExtensionObject": 22, "DataValue": 23, "Variant": 24, "DiagnosticInfo": 25}
+def add_typed_variables(g, rng, n_vars=None, make_value=None, spec=None, n_custom=None):
+    """adds every built-in data type to the base namespace, some non-built-in types, and variables with (value, DataType) combinations.
+       returns {var key: dict(value, datatype key or None, display)}"""
+    from opcua_tools import ua_data_types as T
+    for name, i in BUILTIN_IDS.items():
+        k = (UA, "i", str(i))
+        if k not in g.nodes:
+            g.nodes[k] = dict(cls="UADataType", bname=(UA, name), display=name, desc=None, attrs={}, value=None); g.order.append(k)
+    if (UA, "i", "24") in g.nodes: g.nodes[(UA, "i", "24")]["display"] = "Variant" if False else g.nodes[(UA, "i", "24")]["display"]
+    uri = g.uris[0]
+    custom = []
+    for j, (nm, parent) in enumerate([("MyInt", "6"), ("EUInformation", "22"), ("Int32", "6")][:(rng.randint(1, 3) if n_custom is None else n_custom)]):
+        k = (uri, "i", str(4000 + j))
+        g.nodes[k] = dict(cls="UADataType", bname=(uri, nm), display=nm, desc=None, attrs={}, value=None); g.order.append(k)
+        g.refs.append(((UA, "i", parent), k, (UA, "i", "45"))); custom.append(k)
+    out = {}
+    builtin_keys = [(UA, "i", str(i)) for i in BUILTIN_IDS.values()]
+    nv = (rng.randint(1, 6) if n_vars is None else n_vars) if spec is None else len(spec)
+    for i in range(nv):
+        vk = (uri, "i", str(4100 + i))
+        if spec is not None:
+            val, dtname = spec[i]
+            dt = None if dtname is None else ((UA, "i", str(BUILTIN_IDS[dtname])) if dtname in BUILTIN_IDS else [k for k in custom if g.nodes[k]["display"] == dtname.lstrip("*")][0])
+            g.nodes[vk] = dict(cls="UAVariable", bname=(uri, "Var%d" % i), display="Var%d" % i, desc=None, attrs={} if dt is None else {"DataType": dt}, value=val); g.order.append(vk)
+            out[vk] = dict(value=val, datatype=dt, display="Var%d" % i, cls="UAVariable"); continue
+        val = make_value(rng) if rng.random() < 0.85 else None
+        c = rng.random()
+        if c < 0.1: dt = None
+        elif c < 0.25: dt = rng.choice(custom)
+        elif c < 0.6 and val is not None:
+            name = type(val).__name__[2:]
+            dt = (UA, "i", str(BUILTIN_IDS[name])) if name in BUILTIN_IDS else rng.choice(builtin_keys)
+        else: dt = rng.choice(builtin_keys)
+        disp = "Var%d" % i if rng.random() < 0.8 else "Dup"
+        attrs = {} if dt is None else {"DataType": dt}
+        g.nodes[vk] = dict(cls=rng.choice(["UAVariable"] * 5 + ["UAVariableType"]), bname=(uri, "Var%d" % i), display=disp, desc=None, attrs=attrs, value=val); g.order.append(vk)
+        out[vk] = dict(value=val, datatype=dt, display=disp, cls=g.nodes[vk]["cls"])
+    return out
